@@ -45,6 +45,14 @@ MUTANTS += [
     ("generate_accepts_lists", G, "        if not (isinstance(string, (str, bytes, int, tuple))):", "        if string is None:", "Grammar.generate"),
 ]
 
+TR = "src/fandango/language/tree.py"
+MUTANTS += [
+    ("replace_regen_flag_overwritten", TR, "            if new_param != param:\n                regen_children = True\n", "            regen_children = new_param != param\n", "replace_multiple"),
+    ("replace_never_reruns_generator", TR, "                new_tree.set_children(grammar.derive_generator_output(new_tree))\n", "                pass\n", "replace_multiple"),
+    ("replace_reruns_on_identity", TR, "            if new_param != param:\n", "            if new_param is not param:\n", "replace_multiple"),
+    ("replace_swapped_branches", TR, "        elif regen_params:\n            new_tree.sources = grammar.derive_sources(new_tree)", "        elif regen_params:\n            new_tree.set_children(grammar.derive_generator_output(new_tree))", "replace_multiple"),
+]
+
 # harmless edits: must NOT fail an obligation (verified or undecided are both acceptable, an alarm is not)
 EQUIVALENT = [
     ("eq_terminal_named_leaf", N + "terminal.py", "                parent.add_child(DerivationTree(self.symbol))\n", "                leaf = DerivationTree(self.symbol)\n                parent.add_child(leaf)\n", "TerminalNode.fuzz"),
